@@ -22,7 +22,7 @@ MANIFEST = {
     'text': ('QRV/Props/C02.lean proves the table half of conformance for every version of every symbology: all function-pattern bitmaps, mask canvases, capacity rows, BCH words and RS coders '
              'equal declarative specifications written from the standards (kernel evaluation of every cell; a wrong alignment centre, BCH word, capacity row or RS tap breaks a named lemma). '
              'QRV/Props/C02Symbol.lean proves the algorithm half for QR: for every valid description and mask (explicit or automatic) the encoder model emits a regular bitmap whose every module equals the declarative symbol Spec.Symbol.QR.IsSymbol '
-             '(data stream, block shapes of Table 9, Reed-Solomon codeword condition, interleaving, the standard placement order - the model\'s walk is proved to visit exactly dataCoords v -, mask condition, BCH format/version words at their positions, dark module, function patterns), and that this specification determines the symbol uniquely; Props/C02SymbolMicro.lean proves the same for Micro QR M1-M4 (micro_symbol, micro_symbol_auto, micro_symbol_unique: terminator 3/5/7/9, 4-bit final data codeword of M1/M3, one RS block, four mask patterns, format word XOR 0x4445). Props/C02SymbolRMQR.lean: the library's rMQR placement walk is the standard order WITHOUT the column-1 modules, which the standard visits last (rmqr_walk_is_standard_without_column1, rmqr_column1_last); hence every valid description's bitmap agrees with the standard symbol outside column 1, and is the standard symbol for 21 of 32 versions. '
+             '(data stream, block shapes of Table 9, Reed-Solomon codeword condition, interleaving, the standard placement order - the model\'s walk is proved to visit exactly dataCoords v -, mask condition, BCH format/version words at their positions, dark module, function patterns), and that this specification determines the symbol uniquely; Props/C02SymbolMicro.lean proves the same for Micro QR M1-M4 (micro_symbol, micro_symbol_auto, micro_symbol_unique: terminator 3/5/7/9, 4-bit final data codeword of M1/M3, one RS block, four mask patterns, format word XOR 0x4445). Props/C02SymbolRMQR.lean: the rMQR placement walk of the library is the standard order WITHOUT the column-1 modules, which the standard visits last (rmqr_walk_is_standard_without_column1, rmqr_column1_last); hence the bitmap of every valid description agrees with the standard symbol outside column 1, and is the standard symbol for 21 of 32 versions. '
              'For all three symbologies the algorithm half is also decided per message by comparing the implementation\'s bitmap with an independently written reference encoder and by reading it back with an independent '
              'reference reader, over all configurations and structured payloads, and (QR) by comparing it with the evaluated Spec.Symbol.'),
     'note': ('Trusted: Lean kernel; my transcription of the standards in Spec.* and in the python references (independent of /repo; rMQR EC split/count widths are not independent). '
